@@ -22,6 +22,8 @@
  *
  * Commands
  *   bsink sN [accept|reject]        allocate a blocking recording sink
+ *   renew pN sK                     at the next need_output of pN (its output refused the flow definition) the
+ *                                   probe drops the refused sink and connects a brand new one named sK
  *   block sN / unblock sN           unblock releases what the sink kept (in order)
  *   inb pN <id> <size> <segs> [attrs]   upipe_input of a data buffer:
  *        payload octet i = (id*16+i)&255, segs = "n1+n2+.." (sizes of the segments)
@@ -506,12 +508,21 @@ static struct upipe_mgr bs_mgr = {
     .upipe_control = bs_control,
 };
 
+static struct vsink *bsink_make(const char *name, bool accept, struct vsink *slot);
 static bool cmd_bsink(int nt, char **tok)
 {
-    struct vsink *s = NULL;
-    for (int i = 0; i < MAXOBJ; i++)
+    struct vsink *s = bsink_make(tok[1], !(nt > 2 && !strcmp(tok[2], "reject")), NULL);
+    ret(s != NULL ? 0 : -1);
+    return true;
+}
+
+/* slot: where to build it (a dead sink's place, as an allocator would recycle it) or NULL: the first free one */
+static struct vsink *bsink_make(const char *name, bool accept, struct vsink *slot)
+{
+    struct vsink *s = slot;
+    for (int i = 0; s == NULL && i < MAXOBJ; i++)
         if (!sinks[i].used) { s = &sinks[i]; break; }
-    if (s == NULL) { ret(-1); return true; }
+    if (s == NULL) return NULL;
     struct bx *x = &bx[s - sinks];
     memset(s, 0, sizeof(*s));
     memset(x, 0, sizeof(*x));
@@ -519,15 +530,51 @@ static bool cmd_bsink(int nt, char **tok)
     x->mine = true;
     ulist_init(&x->held);
     ulist_init(&x->blockers);
-    snprintf(s->name, sizeof(s->name), "%s", tok[1]);
-    s->accept = !(nt > 2 && !strcmp(tok[2], "reject"));
+    snprintf(s->name, sizeof(s->name), "%s", name);
+    s->accept = accept;
     uprobe_init(&s->probe, bs_catch, NULL);
     upipe_init(&s->upipe, &bs_mgr, &s->probe);
     urefcount_init(&s->urefcount, bs_dead);
     s->upipe.refcount = &s->urefcount;
     s->handle = &s->upipe;
     upipe_throw_ready(&s->upipe);
-    ret(0);
+    return s;
+}
+
+/* ---- "renew pN sK": at the next need_output of pN the probe replaces the sink that refused by a brand new
+ * one named sK: it disconnects the output, drops the application's handle on the refused sink and only then
+ * allocates the replacement - in the very place of the old one if that is free by then, as malloc would -
+ * and connects it.  Done only when pN is the only pipe connected to the refused sink. */
+static char renew_arm[MAXOBJ][8];
+
+bool pd_need_output(struct obj *self, struct upipe *upipe)
+{
+    int idx = (int)(self - pipes);
+    if (idx < 0 || idx >= MAXOBJ || !renew_arm[idx][0]) return false;
+    struct upipe *out = NULL;
+    if (!ubase_check(upipe_get_output(upipe, &out)) || out == NULL) return false;
+    struct vsink *old = NULL;
+    for (int i = 0; i < MAXOBJ; i++)
+        if (sinks[i].used && !sinks[i].dead && &sinks[i].upipe == out && bx[i].mine) old = &sinks[i];
+    if (old == NULL || old->handle == NULL || find_sink(renew_arm[idx]) != NULL) return false;
+    int up = 0;
+    for (int i = 0; i < MAXOBJ; i++) {
+        struct upipe *o = NULL;
+        if (pipes[i].name[0] && pipes[i].alive && pipes[i].ptr != NULL && pipes[i].ptr != (struct upipe *)-1 &&
+            ubase_check(upipe_get_output(pipes[i].ptr, &o)) && o == out) up++;
+    }
+    if (up != 1) return false;
+    char name[8];
+    snprintf(name, sizeof(name), "%s", renew_arm[idx]);
+    renew_arm[idx][0] = 0;
+    printf("probe renew %s %s %s\n", self->name, old->name, name);
+    upipe_set_output(upipe, NULL);
+    struct upipe *h = old->handle;
+    old->handle = NULL;
+    upipe_release(h);
+    struct vsink *nw = bsink_make(name, true, old->dead ? old : NULL);
+    if (nw == NULL) return false;
+    upipe_set_output(upipe, &nw->upipe);
     return true;
 }
 
@@ -603,6 +650,13 @@ bool pd_ext_b(int nt, char **tok)
 {
     const char *c = tok[0];
     if (!strcmp(c, "bsink") && nt >= 2) return cmd_bsink(nt, tok);
+    if (!strcmp(c, "renew") && nt >= 3) {
+        struct obj *o = find_pipe(tok[1]);
+        if (o == NULL || o->upipe == NULL) { ret(-1); return true; }
+        snprintf(renew_arm[o - pipes], sizeof(renew_arm[0]), "%s", tok[2]);
+        ret(0);
+        return true;
+    }
     if ((!strcmp(c, "block") || !strcmp(c, "unblock")) && nt >= 2) {
         struct vsink *s = find_sink(tok[1]);
         if (s == NULL || !bx[s - sinks].mine) { ret(-1); return true; }
